@@ -391,7 +391,8 @@ def gen_t3(sim, big=False, want_old=None):
     max_write = sim.wpick("t3.maxwrite", [(3, 13), (2, 8), (2, 1), (1, 4), (1, 12)])
     nbr = sim.randint("t3.nbr", 1, max_read)
     nbw = sim.randint("t3.nbw", 1, max_write)
-    nmaxb = sim.wpick("t3.nmaxb", [(3, 13), (2, 1), (2, 3), (2, 16), (2, 20), (1, 63)] +
+    # (more than 256 blocks: block numbers above 255 need three byte block list elements, a command then holds 12 blocks)
+    nmaxb = sim.wpick("t3.nmaxb", [(3, 13), (2, 1), (2, 3), (2, 16), (2, 20), (1, 63), (1, 257), (1, 300)] +
                       ([(1, 255), (1, 256), (1, 300)] if big else []))
     extra = sim.pick("t3.extra", [0, 0, 1, 2, 5])
     nblocks = nmaxb + 1 + extra
